@@ -20,7 +20,7 @@ def componentValues (env : Env) (table : List (String × Expr)) (name : String) 
   | some (_, e) =>
     let v ← match e with
       | .call .. | .brace .. => do
-        let (v, _) ← posOnly (evalArg env true e [] {})
+        let (v, _) ← posOnly (evalArg env e none)
         pure v
       | .quoted t => lookupName env (String.ofList ((t.lexeme.toList.drop 1).dropLast))
       | .variable x => lookupName env x.lexeme
@@ -43,7 +43,7 @@ def componentLevels (env : Env) (table : List (String × Expr)) (name : String) 
         | _ => none
       | none => none
     | some (_, e@(.call ..)) =>
-      match posOnly (evalArg env true e [] {}) with
+      match posOnly (evalArg env e none) with
       | .ok (.box b, _) => b.levels
       | _ => none
     | _ => none
